@@ -509,4 +509,5 @@ Print Assumptions ex10_state_machine_instances.
 Print Assumptions ex11_warning_filter.
 Print Assumptions ex12_before_hook_warning.
 Print Assumptions ex13_replace_guard_satisfiable.
+Print Assumptions ex14_after_hook_exception_general.
 Print Assumptions exH_history_statuses.
